@@ -212,11 +212,9 @@ var originRe = regexp.MustCompile(`^[0-9A-Za-z.:\[\]-]+$`)
 
 // SafeTRUPrefix recognises https://origin/, //origin/, /x (x not / or \) and about:blank#.
 func SafeTRUPrefix(s string) bool {
-	// U+017F (long s) and U+212A (Kelvin sign) are the two non-ASCII code points whose Unicode
-	// simple case folding is an ASCII letter; a case-insensitive reading of "https", "about:blank"
-	// and of host names treats them as 's' and 'k' (IDNA maps them the same way).
-	s = strings.NewReplacer("\u017f", "s", "\u212a", "k").Replace(s)
-	l := strings.ToLower(s)
+	// ASCII case-insensitive: U+017F (long s) and U+212A (Kelvin sign), which Unicode folds to
+	// 's' and 'k', are not letters of "https" or "about:blank" for a URL parser.
+	l := asciiLower(s)
 	rest := ""
 	switch {
 	case strings.HasPrefix(l, "about:blank#"):
@@ -226,12 +224,73 @@ func SafeTRUPrefix(s string) bool {
 	case strings.HasPrefix(l, "//"):
 		rest = s[2:]
 	case strings.HasPrefix(s, "/"):
-		return len(s) > 1 && s[1] != '/' && s[1] != '\\'
+		// tab, LF and CR are removed by URL parsers before anything else
+		return len(s) > 1 && s[1] != '/' && s[1] != '\\' && s[1] != '\t' && s[1] != '\n' && s[1] != '\r'
 	default:
 		return false
 	}
 	i := strings.IndexByte(rest, '/')
 	return i > 0 && originRe.MatchString(rest[:i])
+}
+
+func asciiLower(s string) string {
+	b := []byte(s)
+	for i, c := range b {
+		if 'A' <= c && c <= 'Z' {
+			b[i] = c + 32
+		}
+	}
+	return string(b)
+}
+
+// NormalizedDepth returns the number of path segments that a URL parser (WHATWG, for http(s),
+// scheme-relative and path-absolute URLs) is left with after it has removed tab, LF and CR,
+// trimmed C0 controls and spaces at the ends, read "\\" as "/", and resolved "." and ".."
+// segments (also in their %2e forms); -1 if the URL climbs above its root.
+func NormalizedDepth(u string) int {
+	u = strings.NewReplacer("\t", "", "\n", "", "\r", "").Replace(u)
+	u = strings.TrimFunc(u, func(r rune) bool { return r <= 0x20 })
+	if i := strings.IndexAny(u, "?#"); i >= 0 {
+		u = u[:i]
+	}
+	u = strings.ReplaceAll(u, "\\", "/")
+	// drop scheme and authority
+	l := asciiLower(u)
+	switch {
+	case strings.HasPrefix(l, "https://") || strings.HasPrefix(l, "http://"):
+		u = u[strings.Index(u, "//")+2:]
+		if i := strings.IndexByte(u, '/'); i >= 0 {
+			u = u[i:]
+		} else {
+			u = "/"
+		}
+	case strings.HasPrefix(u, "//"):
+		u = u[2:]
+		if i := strings.IndexByte(u, '/'); i >= 0 {
+			u = u[i:]
+		} else {
+			u = "/"
+		}
+	}
+	depth, clamped := 0, false
+	segs := strings.Split(strings.TrimPrefix(u, "/"), "/")
+	for _, seg := range segs {
+		switch strings.ReplaceAll(strings.ToLower(seg), "%2e", ".") {
+		case ".":
+		case "..":
+			if depth == 0 {
+				clamped = true
+			} else {
+				depth--
+			}
+		default:
+			depth++
+		}
+	}
+	if clamped {
+		return -1
+	}
+	return depth
 }
 
 // IsDotDot reports whether a path segment is the ".." dot-segment in plain or
